@@ -1715,3 +1715,129 @@ func init() {
 	registry["C17"].Meta.Rules["C17.6"] = txt + " - on a truncated file the members behind the cut would vanish instead of failing (shared with C03.16)"
 	registry["C17"].Rules = append(registry["C17"].Rules, func(c *Ctx, r *Result) { listingCompleteRule(c, r, "C17.6") })
 }
+
+// ---- a snapshot does not hand out the live map (C18.11) ----
+//
+// A method that takes its receiver's mutex reads state that another goroutine writes. A map or slice field loaded there is a
+// reference to that state: returned as it is - directly or as a field of a returned struct - it is read by the caller after
+// the lock is gone while the background goroutine keeps writing to it (concurrent map iteration and map write is fatal). The
+// value that leaves the method is a copy made under the lock.
+func liveReferenceEscapeRule(c *Ctx, r *Result, rule string, floor int) {
+	// fields whose content is written by some method (element store, map update, append through the field)
+	mutable := map[string]bool{}
+	for _, fn := range c.LibFuncs() {
+		for _, fs := range c.DirectFieldStores(fn) {
+			if fs.Fn == fn && (fs.Kind == "elem" || fs.Kind == "mapupdate") {
+				mutable[fs.Key] = true
+			}
+		}
+	}
+	n := 0
+	for _, fn := range c.LibFuncs() {
+		pk := shortPkg(fnPkgPath(fn))
+		if pk != "rebalancing" && pk != "structures" && pk != "hdf5" && pk != "writer" {
+			continue
+		}
+		if fn.Signature.Recv() == nil || len(fn.Params) == 0 || len(c.acquiresOwnMutex(fn, 0)) == 0 {
+			continue
+		}
+		recv := fn.Params[0]
+		returned := map[ssa.Value]bool{}
+		instrs(fn, func(in ssa.Instruction) {
+			if ret, ok := in.(*ssa.Return); ok {
+				for _, v := range ret.Results {
+					returned[v] = true
+					if u, isU := v.(*ssa.UnOp); isU && u.Op == token.MUL {
+						returned[u.X] = true // return *local
+					}
+				}
+			}
+		})
+		// results spilled for deferred calls: *result = *literal; ...; return *result
+		for changed := true; changed; {
+			changed = false
+			instrs(fn, func(in ssa.Instruction) {
+				st, ok := in.(*ssa.Store)
+				if !ok || !returned[st.Addr] {
+					return
+				}
+				if u, isU := st.Val.(*ssa.UnOp); isU && u.Op == token.MUL && !returned[u.X] {
+					returned[u.X] = true
+					changed = true
+				}
+			})
+		}
+		instrs(fn, func(in ssa.Instruction) {
+			ld, ok := in.(*ssa.UnOp)
+			if !ok || ld.Op != token.MUL {
+				return
+			}
+			fa, ok := ld.X.(*ssa.FieldAddr)
+			if !ok || fa.X != ssa.Value(recv) {
+				return
+			}
+			switch ld.Type().Underlying().(type) {
+			case *types.Map, *types.Slice:
+			default:
+				return
+			}
+			f, base := fieldOfAddr(fa)
+			if f == nil {
+				return
+			}
+			key := fieldKey(base.Type(), f)
+			if !mutable[key] {
+				return
+			}
+			n++
+			// where does the loaded reference go?
+			escapes := ""
+			seen := map[ssa.Value]bool{}
+			var walk func(v ssa.Value)
+			walk = func(v ssa.Value) {
+				if seen[v] || escapes != "" {
+					return
+				}
+				seen[v] = true
+				if returned[v] {
+					escapes = "returned"
+					return
+				}
+				refs := v.Referrers()
+				if refs == nil {
+					return
+				}
+				for _, ref := range *refs {
+					switch x := ref.(type) {
+					case *ssa.Phi:
+						walk(x)
+					case *ssa.ChangeType:
+						walk(x)
+					case *ssa.Store:
+						if x.Val != v {
+							continue
+						}
+						if fa2, isFA := x.Addr.(*ssa.FieldAddr); isFA {
+							if a, isAlloc := fa2.X.(*ssa.Alloc); isAlloc && returned[a] {
+								escapes = "stored into the returned " + a.Type().(*types.Pointer).Elem().String()
+								if i := strings.LastIndex(escapes, "/"); i >= 0 {
+									escapes = "stored into the returned " + escapes[i+1:]
+								}
+							}
+						}
+					}
+				}
+			}
+			walk(ld)
+			r.Check(escapes == "", rule, c.Name(fn)+"#"+lastSeg(key)+"#live-reference-stays-inside", c.InstrPos(ld), "the map/slice "+key+" loaded in a method that takes the mutex is not handed out"+map[bool]string{true: "", false: " (it is " + escapes + ": the caller reads it without the lock while other goroutines write to it)"}[escapes == ""])
+		})
+	}
+	if n < floor {
+		r.Shortfall(c, rule, fmt.Sprintf("%s: only %d loads of mutable map/slice fields in locking methods (expected >= %d)", rule, n, floor))
+	}
+}
+
+func init() {
+	registry["C18"].Meta.Rules["C18.11"] = "a query does not hand out live state: in a method that takes its receiver's mutex, a map or slice field whose content other methods write is not returned as it is, neither directly nor as a field of the returned struct - what leaves the method is a copy made under the lock (a snapshot holding the collector's own map is iterated by the caller while the monitor goroutine writes to it)"
+	registry["C18"].Rules = append(registry["C18"].Rules, func(c *Ctx, r *Result) { liveReferenceEscapeRule(c, r, "C18.11", 5) })
+}
